@@ -501,3 +501,132 @@ Fixpoint underb (r p : phys) : bool :=
   | x :: r', y :: p' => bytes_eqb x y && underb r' p'
   | _ :: _, [] => false
   end.
+
+(* ------------------------------------------------------------------------------------ *)
+(* layer B: the tree an extraction must reproduce (C18)                                   *)
+
+(* first entry with that name: what a directory listing means as a map *)
+Fixpoint assoc_u (c : name) (us : list (name * utree)) : option utree :=
+  match us with
+  | [] => None
+  | (nm, t) :: r => if bytes_eqb nm c then Some t else assoc_u c r
+  end.
+
+(* the object at relative path s of an abstract tree *)
+Fixpoint ulook (s : list name) (u : utree) : option node :=
+  match s with
+  | [] =>
+    match u with
+    | UFile d => Some (NFile d)
+    | ULink t => Some (NLink t)
+    | UDir _ => Some NDir
+    | _ => None
+    end
+  | c :: s' =>
+    match u with
+    | UDir us => match assoc_u c us with Some u' => ulook s' u' | None => None end
+    | _ => None
+    end
+  end.
+
+(* number of files and symlinks: what `car extract` reports *)
+Fixpoint uleaves (u : utree) : N :=
+  match u with
+  | UFile _ => 1
+  | ULink _ => 1
+  | UDir es => (fix go (es : list (name * utree)) : N :=
+                  match es with [] => 0 | (_, t) :: r => uleaves t + go r end) es
+  | _ => 0
+  end.
+
+(* names and targets a real directory tree can have *)
+Definition no_slash (c : name) : bool := negb (existsb (fun b => byte_eqb b c_slash) c).
+Definition valid_name (c : name) : bool :=
+  normalb c && negb (name_too_long c) && negb (has_nul c) && no_slash c.
+Definition valid_target (t : bytes) : bool :=
+  negb (is_empty t) && negb (has_nul t) && negb (4095 <? blen t).
+
+Fixpoint name_in (c : name) (l : list name) : bool :=
+  match l with [] => false | x :: r => bytes_eqb x c || name_in c r end.
+Fixpoint names_distinct (l : list name) : bool :=
+  match l with [] => true | x :: r => negb (name_in x r) && names_distinct r end.
+
+(* a tree of regular files, symlinks and directories with valid, pairwise distinct sibling names,
+   every block present *)
+Fixpoint valid_utree (u : utree) : bool :=
+  match u with
+  | UFile _ => true
+  | ULink t => valid_target t
+  | UDir es =>
+    names_distinct (map fst es) &&
+    (fix go (es : list (name * utree)) : bool :=
+       match es with [] => true | (nm, t) :: r => valid_name nm && valid_utree t && go r end) es
+  | _ => false
+  end.
+
+(* ------------------------------------------------------------------------------------ *)
+(* reading the archive from standard input (cmd/car/extract.go NewStdinReadStorage ->
+   car.NewBlockReader -> internalio.ToByteReadSeeker + Seek(DataOffset-51, SeekCurrent))       *)
+
+Inductive rkind :=
+| RRegular   (* *os.File on a regular file: Seek works *)
+| RPipe      (* *os.File on a pipe or terminal: has a Seek method, Seek fails (ESPIPE) *)
+| RPlain.    (* an io.Reader without Seek: padding is skipped by reading *)
+
+Definition skip_padding_ok (k : rkind) : bool :=
+  match k with RPipe => false | _ => true end.
+
+(* the delivered fix wraps the reader in struct{ io.Reader } *)
+Definition stdin_reader (fixed : bool) (k : rkind) : rkind := if fixed then RPlain else k.
+
+Definition stdin_open_ok (fixed : bool) (k : rkind) (version : N) : bool :=
+  if version =? 2 then skip_padding_ok (stdin_reader fixed k) else true.
+
+(* ------------------------------------------------------------------------------------ *)
+(* layer B: a directory tree on disk, and the ideal packing of it                         *)
+
+Inductive ftree :=
+| TFile (d : bytes)
+| TLink (t : bytes)
+| TDir (es : list (name * ftree)).
+
+Fixpoint assoc_t (c : name) (es : list (name * ftree)) : option ftree :=
+  match es with
+  | [] => None
+  | (nm, t) :: r => if bytes_eqb nm c then Some t else assoc_t c r
+  end.
+
+(* the object at relative path s of a tree on disk *)
+Fixpoint tlook (s : list name) (t : ftree) : option node :=
+  match s with
+  | [] =>
+    match t with
+    | TFile d => Some (NFile d)
+    | TLink x => Some (NLink x)
+    | TDir _ => Some NDir
+    end
+  | c :: s' =>
+    match t with
+    | TDir es => match assoc_t c es with Some t' => tlook s' t' | None => None end
+    | _ => None
+    end
+  end.
+
+(* the reference packing: every file whole, every directory listed in the order of its entries.
+   What `car create` (go-unixfsnode's builder: chunking, sharding, link sorting) and the loaders
+   of `car extract` really present is an oracle related to this one by ulook/tlook equality. *)
+Fixpoint u_of_t (t : ftree) : utree :=
+  match t with
+  | TFile d => UFile d
+  | TLink x => ULink x
+  | TDir es =>
+    UDir ((fix go (es : list (name * ftree)) : list (name * utree) :=
+             match es with [] => [] | (nm, t') :: r => (nm, u_of_t t') :: go r end) es)
+  end.
+
+(* valid sibling names (no separator, not "." or "..", not empty, at most 255 bytes, no NUL),
+   pairwise distinct; valid link targets *)
+Definition valid_ftree (t : ftree) : bool := valid_utree (u_of_t t).
+Definition is_tdir (t : ftree) : bool := match t with TDir _ => true | _ => false end.
+(* `car create` without --no-wrap packs the source below a directory entry named after it *)
+Definition wrap (nm : name) (t : ftree) : ftree := TDir [(nm, t)].
